@@ -67,5 +67,11 @@ Proof. vm_compute. split; reflexivity. Qed.
    to the definition that was encoded, followed by the default-value suffix (Model/Packets.v) *)
 Theorem c16_field_list_definition_decodable : forall cd dflt, coldef_wf cd ->
   dec_coldef (enc_coldef cd (Some dflt)) =
-  Some (cd, match dflt with None => uint_len 0 | Some v => uint_len (len v) ++ str_len v end).
+  Some (cd, match dflt with None => uint_len 0 | Some v => str_len v end).
 Proof. exact field_list_coldef_roundtrip. Qed.
+
+(* ... and that suffix is ONE length-encoded string from which the client reads the default value back *)
+Theorem c16_field_list_default_decodable : forall dflt, match dflt with Some v => len v < 2 ^ 64 | None => True end ->
+  read_str_len (match dflt with None => uint_len 0 | Some v => str_len v end) =
+  Some (match dflt with None => [] | Some v => v end, []).
+Proof. exact field_list_default_roundtrip. Qed.
